@@ -362,8 +362,26 @@ pub fn exec_store(ctx: &mut Ctx, t: &mut Toks) -> String {
         );
         return format!("OK |{} | 0", dump_store(c.store.as_ref().unwrap(), shards));
     }
+    if op == "sched" {
+        // plan for the next distance query
+        let (m, _) = &*crate::sched::SCHED;
+        let mut st = m.lock().unwrap();
+        *st = crate::sched::State::default();
+        st.active = true;
+        match t.next() {
+            "order" => {
+                let k = t.usize();
+                st.order = (0..k).map(|_| t.u64()).collect();
+            }
+            "workersfirst" => st.window_waits_for = usize::MAX,
+            "callerfirst" => st.hold_workers = true,
+            _ => {}
+        }
+        return "OK".into();
+    }
     let n0 = c.notes.load(Ordering::SeqCst);
     let shards = c.store.as_ref().unwrap().shard_stats().len();
+    let mut trace_suffix = String::new();
     let res: String = match op {
         "addt" => {
             let tr = build_track(c, t);
@@ -451,10 +469,28 @@ pub fn exec_store(ctx: &mut Ctx, t: &mut Toks) -> String {
                 st_ref.store.as_mut().unwrap().foreign_track_distances(cands, cls, only_baked)
             } else {
                 let ids: Vec<u64> = (0..k).map(|_| t.u64()).collect();
-                st_ref.store.as_mut().unwrap().owned_track_distances(&ids, cls, only_baked)
+                {
+                    // "workers first": the caller waits in the window until every queued command has run
+                    let present = ids.iter().filter(|i| st_ref.store.as_ref().unwrap().get_store(**i as usize).contains_key(i)).count();
+                    let (m, _) = &*crate::sched::SCHED;
+                    let mut s = m.lock().unwrap();
+                    if s.window_waits_for == usize::MAX {
+                        s.window_waits_for = present * shards;
+                    }
+                }
+                let r = st_ref.store.as_mut().unwrap().owned_track_distances(&ids, cls, only_baked);
+                crate::sched::release();
+                r
             };
             let oks: Vec<ObservationMetricOk<HO>> = ok.all();
             let errs = err.all();
+            {
+                let active = crate::sched::SCHED.0.lock().unwrap().active;
+                if active {
+                    let (trace, timeouts) = crate::sched::finish(0);
+                    trace_suffix = format!(" | T {} {}", timeouts, nat_list(&trace.iter().map(|x| *x as usize).collect::<Vec<_>>()));
+                }
+            }
             let mut nerr = 0;
             for e in errs {
                 if e.is_err() {
@@ -466,5 +502,5 @@ pub fn exec_store(ctx: &mut Ctx, t: &mut Toks) -> String {
         x => return format!("UNKNOWN-OP {x}"),
     };
     let n1 = c.notes.load(Ordering::SeqCst);
-    format!("{} |{} | {}", res, dump_store(c.store.as_ref().unwrap(), shards), n1 - n0)
+    format!("{} |{} | {}{}", res, dump_store(c.store.as_ref().unwrap(), shards), n1 - n0, trace_suffix)
 }
